@@ -11,8 +11,17 @@ import CpModel.Gen.C08Tables
     `obj path` is the module / builtin / attribute a dotted name denotes, `env` lists the dotted paths
     that resolve (what `__import__`, `getattr(builtins, …)`, `getattr(parent, …)` answer);
   * `toAst v`: the AST of `repr(v)` (validated against `ast.parse(repr(v))` on every run).
-  Not modelled: `Call`, `Subscript` evaluation (recognised by the builder, reported `notModelled`),
-  `Mult` and `Add` on non-numbers, unhashable dict keys, the CPython parser itself.
+  * `Call`: `_build_call35` — positional arguments in order (a `*x` argument: see `starredSpreads`), keyword
+    arguments in order: `name=value` sets (overwrites) the entry, `**mapping` adds only the keys not yet
+    there and raises `TypeError` for a non-dict; the callee is whatever `build(o.func)` gives; calling a
+    module / builtin / attribute is *symbolic* (`applied path args kwargs`: which function gets which
+    arguments — the function's own behaviour is outside the model) except `dict`, `list`, `tuple`;
+  * `Subscript` on lists / tuples / strings / bytes (int index, negative from the end) and dicts (str / int
+    keys); slices are `ast.Slice` nodes the builder has no method for;
+  * `BinOp`: `Add` / `Sub` on numbers, `Add` on two str / bytes / list / tuple, `Mult` on numbers and
+    sequence × int; `UnaryOp`: `USub` on numbers; anything else raises `TypeError` as Python does.
+  Not modelled (`notModelled`): operations on symbolic values, float products that are not decimals with 3
+  places, complex products, mixed-kind dict keys, duplicate keys in a dict display, the CPython parser.
 -/
 namespace CpModel.Unrepr
 
@@ -48,8 +57,16 @@ inductive PyAst where
   | bin (l : PyAst) (op : BOp) (r : PyAst)
   | name (id : List Char)
   | attr (e : PyAst) (a : List Char)
-  /-- `Call` / `Subscript`: recognised by the builder, evaluation not modelled -/
+  /-- `Call`: positional arguments (possibly `starred`), then `keyword` / `kwsplat` nodes -/
   | call (f : PyAst) (args : List PyAst)
+  /-- `*e` among the positional arguments -/
+  | starred (e : PyAst)
+  /-- `name=e` -/
+  | keyword (name : List Char) (e : PyAst)
+  /-- `**e` -/
+  | kwsplat (e : PyAst)
+  /-- `v[i]` (`o.slice` is the index expression itself since Python 3.9) -/
+  | subscript (v : PyAst) (i : PyAst)
   /-- any other node class, by its class name -/
   | other (cls : String)
   deriving Repr, Inhabited
@@ -67,6 +84,9 @@ inductive PyVal where
   /-- keys and values alternating -/
   | dict (kvs : List PyVal)
   | obj (path : List (List Char))
+  /-- the result of calling the module attribute / builtin `path` with these arguments (kwargs: names as
+      `str` and values alternating) -/
+  | applied (path : List (List Char)) (args : List PyVal) (kwargs : List PyVal)
   deriving Repr, Inhabited
 
 inductive Err where
@@ -77,11 +97,17 @@ inductive Err where
   | attributeError
   /-- the operator raised `TypeError` -/
   | typeError
-  /-- outside the model (Call, Subscript, Mult, Add on sequences, attribute of a non-module) -/
+  | indexError
+  | keyError
+  /-- outside the model -/
   | notModelled
   deriving DecidableEq, Repr, Inhabited
 
 def liveTable : List String := Gen.C08.builderNodes
+
+/-- does a `*x` argument contribute its items (Python's meaning) or `x` itself as ONE argument?
+    Measured on the live builder by `harness/c08.py tables()`. -/
+def starredSpreads : Bool := Gen.C08.starredSpreads
 
 def uopName : UOp → String
   | .usub => "USub" | .uadd => "UAdd" | .not => "Not" | .invert => "Invert"
@@ -115,17 +141,242 @@ def mkNum : NK → Int → Int → PyVal
   | .complex, re, im => .complex re im
 
 /-- `operator.neg` -/
+def symbolic : PyVal → Bool
+  | .obj _ => true
+  | .applied .. => true
+  | _ => false
+
 def negV (v : PyVal) : Except Err PyVal :=
   match num? v with
   | some (k, re, im) => .ok (mkNum k (-re) (-im))
-  | none => .error .typeError
+  | none => if symbolic v then .error .notModelled else .error .typeError
 
-/-- `operator.add` / `operator.sub` on numbers -/
+/-- `operator.add` / `operator.sub` when not both operands are numbers -/
+def nonNum (sub : Bool) (a b : PyVal) : Except Err PyVal :=
+  if symbolic a || symbolic b then .error .notModelled
+  else if sub then .error .typeError
+  else match a, b with
+    | .str x, .str y => .ok (.str (x ++ y))
+    | .bytes x, .bytes y => .ok (.bytes (x ++ y))
+    | .list x, .list y => .ok (.list (x ++ y))
+    | .tuple x, .tuple y => .ok (.tuple (x ++ y))
+    | _, _ => .error .typeError
+
+/-- `operator.add` / `operator.sub` -/
 def arith (sub : Bool) (a b : PyVal) : Except Err PyVal :=
   match num? a, num? b with
   | some (k1, r1, i1), some (k2, r2, i2) =>
     .ok (if sub then mkNum (k1.max k2) (r1 - r2) (i1 - i2) else mkNum (k1.max k2) (r1 + r2) (i1 + i2))
-  | _, _ => .error .notModelled
+  | _, _ => nonNum sub a b
+
+def repeatList {α : Type} (xs : List α) : Nat → List α
+  | 0 => []
+  | n + 1 => xs ++ repeatList xs n
+
+/-- `seq * n` -/
+def seqTimes (v : PyVal) (n : Int) : Option PyVal :=
+  let k := n.toNat
+  match v with
+  | .str x => some (.str (repeatList x k))
+  | .bytes x => some (.bytes (repeatList x k))
+  | .list x => some (.list (repeatList x k))
+  | .tuple x => some (.tuple (repeatList x k))
+  | _ => none
+
+/-- an operand usable as a repeat count (`int`, `bool`) -/
+def asIndex : PyVal → Option Int
+  | .int i => some i
+  | .bool b => some (if b then 1 else 0)
+  | _ => none
+
+/-- `operator.mul` -/
+def multV (a b : PyVal) : Except Err PyVal :=
+  if symbolic a || symbolic b then .error .notModelled else
+  match num? a, num? b with
+  | some (k1, r1, i1), some (k2, r2, i2) =>
+    if k1 = .complex ∨ k2 = .complex then
+      (if i1 = 0 ∧ i2 = 0 then .error .notModelled else .error .notModelled)
+    else if k1 = .int ∧ k2 = .int then .ok (.int ((r1 / 1000) * (r2 / 1000)))
+    else if (r1 * r2) % 1000 = 0 then .ok (.float (r1 * r2 / 1000)) else .error .notModelled
+  | _, _ =>
+    match asIndex b, asIndex a with
+    | some n, _ => match seqTimes a n with
+      | some r => .ok r
+      | none => .error .typeError
+    | none, some n => match seqTimes b n with
+      | some r => .ok r
+      | none => .error .typeError
+    | none, none => .error .typeError
+
+/-! ### subscripts, dict construction, calls -/
+
+/-- `seq[i]` position: negative from the end -/
+def normIndex (len : Nat) (i : Int) : Option Nat :=
+  if 0 ≤ i then (if i.toNat < len then some i.toNat else none)
+  else if (-i).toNat ≤ len then some (len - (-i).toNat) else none
+
+/-- keys the model compares: `str`, `bytes`, `int` (no `bool` / `float` mixing) -/
+def keyEq : PyVal → PyVal → Option Bool
+  | .str a, .str b => some (a == b)
+  | .bytes a, .bytes b => some (a == b)
+  | .int a, .int b => some (a == b)
+  | .str _, .int _ => some false
+  | .int _, .str _ => some false
+  | .str _, .bytes _ => some false
+  | .bytes _, .str _ => some false
+  | .int _, .bytes _ => some false
+  | .bytes _, .int _ => some false
+  | _, _ => none
+
+def unhashable : PyVal → Bool
+  | .list _ => true
+  | .dict _ => true
+  | _ => false
+
+/-- lookup in an alternating key/value list -/
+def dictGet : List PyVal → PyVal → Except Err PyVal
+  | k :: v :: rest, key =>
+    match keyEq k key with
+    | some true => .ok v
+    | some false => dictGet rest key
+    | none => .error .notModelled
+  | _, _ => .error .keyError
+
+/-- `d[k] = v` on an alternating key/value list (an existing key keeps its place) -/
+def dictSet : List PyVal → PyVal → PyVal → Except Err (List PyVal)
+  | k :: v :: rest, key, val =>
+    match keyEq k key with
+    | some true => .ok (k :: val :: rest)
+    | some false => do let r ← dictSet rest key val; pure (k :: v :: r)
+    | none => .error .notModelled
+  | _, key, val => .ok [key, val]
+
+def dictHas (d : List PyVal) (key : PyVal) : Except Err Bool :=
+  match dictGet d key with
+  | .ok _ => .ok true
+  | .error .keyError => .ok false
+  | .error e => .error e
+
+/-- `v[i]` -/
+def subscriptV (v i : PyVal) : Except Err PyVal :=
+  if symbolic v || symbolic i then .error .notModelled else
+  match v with
+  | .dict kvs => if unhashable i then .error .typeError else dictGet kvs i
+  | .list xs | .tuple xs =>
+    match asIndex i with
+    | some n => match normIndex xs.length n with
+      | some k => match xs[k]? with
+        | some x => .ok x
+        | none => .error .indexError
+      | none => .error .indexError
+    | none => .error .typeError
+  | .str s =>
+    match asIndex i with
+    | some n => match normIndex s.length n with
+      | some k => match s[k]? with
+        | some c => .ok (.str [c])
+        | none => .error .indexError
+      | none => .error .indexError
+    | none => .error .typeError
+  | .bytes s =>
+    match asIndex i with
+    | some n => match normIndex s.length n with
+      | some k => match s[k]? with
+        | some c => .ok (.int c.toNat)
+        | none => .error .indexError
+      | none => .error .indexError
+    | none => .error .typeError
+  | _ => .error .typeError
+
+/-- keyword arguments while they are collected: name ↦ value, in first-insertion order -/
+abbrev Kwargs := List (List Char × PyVal)
+
+def kwHas (kw : Kwargs) (n : List Char) : Bool := kw.any (·.1 == n)
+
+/-- `kwargs[name] = v` -/
+def kwSet : Kwargs → List Char → PyVal → Kwargs
+  | [], n, v => [(n, v)]
+  | (k, x) :: rest, n, v => if k = n then (k, v) :: rest else (k, x) :: kwSet rest n v
+
+/-- `for k, v in rst.items(): if k not in kwargs: kwargs[k] = v` (`rst` alternating; a key that is not a
+    `str` makes the call itself raise TypeError: keywords must be strings) -/
+def kwMerge : Kwargs → List PyVal → Kwargs × Bool
+  | kw, .str n :: v :: rest => kwMerge (if kwHas kw n then kw else kw ++ [(n, v)]) rest
+  | kw, _ :: _ :: rest => ((kwMerge kw rest).1, true)
+  | kw, _ => (kw, false)
+
+def kwFlat : Kwargs → List PyVal
+  | [] => []
+  | (n, v) :: rest => .str n :: v :: kwFlat rest
+
+def itemsOf : PyVal → Option (List PyVal)
+  | .list xs => some xs
+  | .tuple xs => some xs
+  | _ => none
+
+def evens : List PyVal → List PyVal
+  | k :: _ :: rest => k :: evens rest
+  | _ => []
+
+/-- what iterating over a value yields (`*x`, `list(x)`, `tuple(x)`) -/
+def iterOf : PyVal → Option (List PyVal)
+  | .list xs => some xs
+  | .tuple xs => some xs
+  | .str s => some (s.map fun c => .str [c])
+  | .bytes s => some (s.map fun c => .int c.toNat)
+  | .dict kvs => some (evens kvs)
+  | _ => none
+
+def pairsInto : List PyVal → List PyVal → Except Err (List PyVal)
+  | d, [] => .ok d
+  | d, p :: rest =>
+    match itemsOf p with
+    | some [k, v] => if unhashable k then .error .typeError else do
+        let d' ← dictSet d k v
+        pairsInto d' rest
+    | _ => .error .notModelled
+
+def kwInto : List PyVal → Kwargs → Except Err (List PyVal)
+  | d, [] => .ok d
+  | d, (n, v) :: rest => do
+    let d' ← dictSet d (.str n) v
+    kwInto d' rest
+
+/-- `dict(*args, **kw)` -/
+def applyDict (args : List PyVal) (kw : Kwargs) : Except Err PyVal :=
+  match args with
+  | [] => (kwInto [] kw).map .dict
+  | [.dict kvs] => (kwInto kvs kw).map .dict
+  | [a] =>
+    match itemsOf a with
+    | some ps =>
+      match pairsInto [] ps with
+      | .ok d => (kwInto d kw).map .dict
+      | .error e => .error e
+    | none => if symbolic a then .error .notModelled else .error .notModelled
+  | _ => .error .typeError
+
+/-- `list(*args, **kw)` / `tuple(*args, **kw)` -/
+def applySeq (mk : List PyVal → PyVal) (args : List PyVal) (kw : Kwargs) : Except Err PyVal :=
+  if !kw.isEmpty then .error .typeError else
+  match args with
+  | [] => .ok (mk [])
+  | [a] =>
+    match iterOf a with
+    | some xs => .ok (mk xs)
+    | none => if symbolic a then .error .notModelled else .error .typeError
+  | _ => .error .typeError
+
+/-- `callee(*args, **kwargs)` -/
+def applyV (callee : PyVal) (args : List PyVal) (kw : Kwargs) : Except Err PyVal :=
+  match callee with
+  | .obj p =>
+    if p = ["dict".toList] then applyDict args kw
+    else if p = ["list".toList] then applySeq .list args kw
+    else if p = ["tuple".toList] then applySeq .tuple args kw
+    else .ok (.applied p args (kwFlat kw))
+  | .applied .. => .error .notModelled
+  | _ => .error .typeError
 
 def litVal : Lit → PyVal
   | .none => .none
@@ -135,6 +386,24 @@ def litVal : Lit → PyVal
   | .imag m => .complex 0 m
   | .str s => .str s
   | .bytes s => .bytes s
+
+/-- where `build_Name` finds a name -/
+inductive Origin where
+  /-- `None` / `True` / `False` -/
+  | keyword
+  /-- `modules(name)`: the import succeeded -/
+  | module
+  /-- `getattr(builtins, name)` -/
+  | builtin
+  deriving DecidableEq, Repr, Inhabited
+
+/-- `build_Name`'s lookup order: the three keywords, then an importable module or package of that name,
+    then a builtin, else `TypeError('unrepr could not resolve the name …')` -/
+def nameOrigin (importable builtin : List Char → Bool) (id : List Char) : Option Origin :=
+  if id = "None".toList ∨ id = "True".toList ∨ id = "False".toList then some .keyword
+  else if importable id then some .module
+  else if builtin id then some .builtin
+  else none
 
 def recog (tbl : List String) (cls : String) : Except Err Unit :=
   if tbl.contains cls then .ok () else .error (.unrecognised cls)
@@ -177,8 +446,46 @@ def build (tbl : List String) (env : List (List (List Char))) : PyAst → Except
     match ← build tbl env e with
     | .obj p => if env.contains (p ++ [a]) then pure (.obj (p ++ [a])) else .error .attributeError
     | _ => .error .notModelled
-  | .call _ _ => do recog tbl "Call"; .error .notModelled
+  | .call f args => do
+    recog tbl "Call"
+    let callee ← build tbl env f
+    let (pos, kw, bad) ← buildArgs tbl env args [] [] false
+    if bad then .error .typeError else applyV callee pos kw
+  | .subscript v i => do
+    recog tbl "Subscript"
+    let a ← build tbl env v
+    let b ← build tbl env i
+    subscriptV a b
+  | .starred _ => do recog tbl "Starred"; .error .notModelled
+  | .keyword _ _ => .error .notModelled
+  | .kwsplat _ => .error .notModelled
   | .other cls => do recog tbl cls; .error .notModelled
+
+/-- the two loops of `_build_call35`, left to right: positional arguments (`o.args`), then `o.keywords`;
+    `bad`: a `**mapping` had a key that is not a `str` (the call itself raises TypeError then) -/
+def buildArgs (tbl : List String) (env : List (List (List Char))) :
+    List PyAst → List PyVal → Kwargs → Bool → Except Err (List PyVal × Kwargs × Bool)
+  | [], pos, kw, bad => pure (pos, kw, bad)
+  | .starred e :: r, pos, kw, bad => do
+    let v ← build tbl env e
+    if starredSpreads then
+      match iterOf v with
+      | some xs => buildArgs tbl env r (pos ++ xs) kw bad
+      | none => if symbolic v then .error .notModelled else .error .typeError
+    else buildArgs tbl env r (pos ++ [v]) kw bad
+  | .keyword n e :: r, pos, kw, bad => do
+    let v ← build tbl env e
+    buildArgs tbl env r pos (kwSet kw n v) bad
+  | .kwsplat e :: r, pos, kw, bad => do
+    let v ← build tbl env e
+    match v with
+    | .dict kvs =>
+      let (kw', bad') := kwMerge kw kvs
+      buildArgs tbl env r pos kw' (bad || bad')
+    | _ => if symbolic v then .error .notModelled else .error .typeError
+  | x :: r, pos, kw, bad => do
+    let v ← build tbl env x
+    buildArgs tbl env r (pos ++ [v]) kw bad
 
 def buildList (tbl : List String) (env : List (List (List Char))) : List PyAst → Except Err (List PyVal)
   | [] => pure []
@@ -216,6 +523,7 @@ def toAst : PyVal → PyAst
   | .tuple xs => .tuple (toAstList xs)
   | .dict kvs => .dict (toAstList kvs)
   | .obj p => (nameChain p).getD (.other "Invalid")
+  | .applied .. => .other "Applied"
 
 def toAstList : List PyVal → List PyAst
   | [] => []
